@@ -266,10 +266,14 @@ the driver as `m.clean` so that the differential cross-checks the statement on e
   (`iri[path_end..]` starts with '?'), the base having no query of its own when the common prefix reaches
   `query_end`;
 * (F) the common prefix reaches `query_end` and the IRI continues with nothing or a fragment;
-* (P) a path tail: the base path is rooted and free of dot segments, `CleanTail` holds, and either the
+* (P) a path tail: the base path is free of dot segments, the tail starts strictly inside it (the cut
+  `iri.len() - tail.len()` is after `path_begin`: always so for rooted base paths; for rootless ones this
+  excludes "../" up to the very top, where RFC 3986 §5.2.4 yields a rooted path), `CleanTail` holds, and either the
   common prefix stops inside the path (`lcp ≤ path_end`, `lcp < query_end`: the path branches) or the base
-  is a query-less directory (path ending in '/') that the IRI extends; the IRI has the authority of the base (not needed for
-  `rel_inverse_partial`, whose conclusion is an equality of strings, but for `rel_is_ref_partial`). -/
+  is a query-less directory (path ending in '/') that the IRI extends; the IRI has the authority of the
+  base (not needed for `rel_inverse_partial`, whose conclusion is an equality of strings, but for
+  `rel_is_ref_partial`);
+* (E) the base path is empty and the tail is an absolute path ("/…" but not "//…") free of dot segments. -/
 def cleanCase (base : Octets) (n : Nat) (iri : Octets) : Bool :=
   let R := new base n
   let b := Rfc3986.split base
@@ -281,8 +285,12 @@ def cleanCase (base : Octets) (n : Nat) (iri : Octets) : Bool :=
       || (l ≥ R.query_end && ((iri.drop R.query_end).isEmpty || startsWith '#' (iri.drop R.query_end)))
       || (((l ≤ R.path_end && l < R.query_end)
             || (l ≥ R.query_end && b.query.isNone && b.path.getLast? == Option.some '/'))
-          && startsWith '/' b.path && noDotSegs b.path && cleanTail ins t
-          && (Rfc3986.split iri).authority == b.authority) )
+          && iri.length - t.length > pathBegin b && noDotSegs b.path && cleanTail ins t
+          && (Rfc3986.split iri).authority == b.authority)
+      || (b.path.isEmpty
+          && ((l ≥ R.query_end && b.query.isNone) || (l < R.query_end && l ≤ R.path_end))
+          && startsWith '/' t && !startsWith '/' (t.drop 1)
+          && noDotSegs ((Rfc3986.spanNot ['?', '#'] t).1.drop 1)) )
   | _ => false
 
 /-- octets of a string / string of octets (driver) -/
